@@ -17,7 +17,8 @@ Anchors in /repo:
     Method._ref_types → `{% filter sort_lines %}` import blocks,
     → Service.names / Proto.names `modules[...]`           → `importBlock`, `collidingModules`      (S4)
   client.py.j2 / async_client.py.j2 / test_<service>.py.j2:
-    `service.resource_messages|sort(attribute="resource_type")`  → `resourceHelperOrder`          (S2, key NOT injective)
+    `service.resource_messages|sort(attribute="resource_type_full_path", case_sensitive=true)
+                              |sort(attribute="resource_type")`  → `resourceHelperOrder`          (S2; injective first key since the F4 repair)
   `method.retry.retryable_exceptions|sort(attribute='__name__')` → `retryOrder`                   (S2, key injective)
 -/
 namespace GapicModel.Model.Determinism
@@ -158,15 +159,19 @@ def resourceType (r : Resource) : Str :=
   | none => r.type                 -- find = -1 → [0:]
   | some i => r.type.drop (i + 1)
 
-/-- `{% for message in service.resource_messages|sort(attribute="resource_type") %}`: the order in
-which `<x>_path`/`parse_<x>_path` are defined when the frozenset is iterated in order `s`. -/
-def resourceHelperOrder (s : List Resource) : List Resource := jinjaSortAttr resourceType s
-
-/-- the repair proposed for F4: sort by the full type first (case-sensitively), then (stably) by
-the short type as today:
-`service.resource_messages|sort(attribute="resource_type_full_path", case_sensitive=true)|sort(attribute="resource_type")` -/
-def resourceHelperOrderPatched (s : List Resource) : List Resource :=
+/-- The helper loop of client.py.j2 / async_client.py.j2 / test_<service>.py.j2 (both template trees)
+since the repair of §9-F4 (`fix: make the order of resource path helpers independent of the hash seed`):
+`{% for message in service.resource_messages
+     |sort(attribute="resource_type_full_path", case_sensitive=true)|sort(attribute="resource_type") %}`
+— the frozenset, iterated in order `s`, is first sorted by the FULL resource type (exact comparison),
+then stably by the short type (case-folded).  The result is the order in which
+`<x>_path`/`parse_<x>_path` are defined. -/
+def resourceHelperOrder (s : List Resource) : List Resource :=
   jinjaSortAttr resourceType (sortBy (·.type) s)
+
+/-- the loop as it was before the repair (one stable sort by the short type only); kept to state
+that the repair did not move anything whose position was well defined -/
+def resourceHelperOrderSingleStage (s : List Resource) : List Resource := jinjaSortAttr resourceType s
 
 /-- the names `exception_class_for_grpc_status` can return (google.api_core.exceptions), i.e. the
 possible members of `RetryInfo.retryable_exceptions`; the check compares this table with the
